@@ -118,7 +118,7 @@ static void ugcd_case(void) {
     if (ri == 0 && !lp_upolynomial_is_zero(P)) {
       lp_integer_t c; lp_integer_construct(&c);
       sb_begin("ugcd", "ppcont"); sb_sp(); hp_ring_token(ri); sb_sp(); sb_upoly(P); sb_arrow();
-      lp_upolynomial_content_Z(P, &c); lp_upolynomial_t* pp = lp_upolynomial_primitive_part_Z(P);
+      lp_upolynomial_content_Z(P, &c); lp_upolynomial_t* pp; if (chance(50)) pp = lp_upolynomial_primitive_part_Z(P); else { pp = lp_upolynomial_construct_copy(P); lp_upolynomial_make_primitive_Z(pp); }
       sb_sp(); sb_upoly(pp); sb_sp(); sb_mpz(&c); sb_sp(); sb_long(lp_upolynomial_is_primitive(pp)); sb_emit();
       lp_upolynomial_delete(pp); lp_integer_destruct(&c);
     }
